@@ -83,11 +83,22 @@ class _B:
     pass
 
 
+class _Meta:
+    """annotation metadata built by a call; its repr does not depend on the arguments (the rewritten spelling of an argument is
+    judged by the nobitor / meaning clauses, not by comparing metadata objects)"""
+
+    def __init__(self, *a, **k):
+        pass
+
+    def __repr__(self):
+        return "Meta(...)"
+
+
 def _real_ns():
     return {
         "__builtins__": {}, "int": int, "str": str, "list": list, "dict": dict, "tuple": tuple, "set": set, "Pattern": re.Pattern,
         "typing": typing, "Literal": typing.Literal, "Annotated": typing.Annotated, "Callable": typing.Callable,
-        "x": types.SimpleNamespace(Seq=collections.abc.Sequence), "a": types.SimpleNamespace(b=_B),
+        "x": types.SimpleNamespace(Seq=collections.abc.Sequence), "a": types.SimpleNamespace(b=_B), "Meta": _Meta,
     }
 
 
